@@ -325,5 +325,72 @@ theorem cellCmp_le_trans (x y z : Str) (h1 : cellCmp x y ≠ .gt) (h2 : cellCmp 
     | (rw [o.eq_lt x y z a b]; decide)
     | (rw [o.eq_eq x y z a b]; decide)
 
+/-! ### rows: several keys, each in its own direction -/
+
+theorem ordRev_eq_oswap (o : Ordering) : ordRev o = oswap o := by cases o <;> rfl
+
+theorem isOrd_rev {α : Type} (c : α → α → Ordering) (h : IsOrd c) : IsOrd (fun x y => ordRev (c x y)) := by
+  constructor
+  · intro x y; simp only [ordRev_eq_oswap, h.swap x y]
+  · intro x y z a b
+    simp only [ordRev_eq_oswap] at a b ⊢
+    have a' : c y x = .lt := by rw [h.swap x y]; cases hc : c x y <;> rw [hc] at a <;> simp [oswap] at a ⊢
+    have b' : c z y = .lt := by rw [h.swap y z]; cases hc : c y z <;> rw [hc] at b <;> simp [oswap] at b ⊢
+    have := h.lt_lt z y x b' a'
+    rw [h.swap z x, this]; rfl
+  · intro x y z a b
+    simp only [ordRev_eq_oswap] at a b ⊢
+    have a' : c x y = .eq := by cases hc : c x y <;> rw [hc] at a <;> simp [oswap] at a ⊢
+    have b' : c y z = .eq := by cases hc : c y z <;> rw [hc] at b <;> simp [oswap] at b ⊢
+    rw [h.eq_eq x y z a' b']; rfl
+  · intro x y z a b
+    simp only [ordRev_eq_oswap] at a b ⊢
+    have a' : c y x = .eq := by rw [h.swap x y]; cases hc : c x y <;> rw [hc] at a <;> simp [oswap] at a ⊢
+    have b' : c z y = .lt := by rw [h.swap y z]; cases hc : c y z <;> rw [hc] at b <;> simp [oswap] at b ⊢
+    have := h.lt_eq z y x b' a'
+    rw [h.swap z x, this]; rfl
+  · intro x y z a b
+    simp only [ordRev_eq_oswap] at a b ⊢
+    have a' : c y x = .lt := by rw [h.swap x y]; cases hc : c x y <;> rw [hc] at a <;> simp [oswap] at a ⊢
+    have b' : c z y = .eq := by rw [h.swap y z]; cases hc : c y z <;> rw [hc] at b <;> simp [oswap] at b ⊢
+    have := h.eq_lt z y x b' a'
+    rw [h.swap z x, this]; rfl
+
+theorem isOrd_const {α : Type} : IsOrd (fun (_ _ : α) => Ordering.eq) where
+  swap := fun _ _ => rfl
+  lt_lt := fun _ _ _ a _ => by cases a
+  eq_eq := fun _ _ _ _ _ => rfl
+  eq_lt := fun _ _ _ _ b => by cases b
+  lt_eq := fun _ _ _ a _ => by cases a
+
+def cellAt (i : Nat) (a : List (Str × Str)) : Str := (a[i]?.map (·.2)).getD []
+
+/-- **ORDER BY over group rows compares the rows by a total order**: for every list of key positions and every
+    list of directions `groupedCmp` is mirror-symmetric and transitive — the lexicographic combination of the cell
+    order on each key, reversed for `desc` -/
+theorem isOrd_groupedCmp (idxs : List Nat) (asc : List Bool) : IsOrd (groupedCmp idxs asc) := by
+  induction idxs generalizing asc with
+  | nil =>
+    have : groupedCmp [] asc = fun _ _ => Ordering.eq := by funext a b; simp [groupedCmp]
+    rw [this]; exact isOrd_const
+  | cons i is ih =>
+    cases asc with
+    | nil =>
+      have : groupedCmp (i :: is) [] = fun _ _ => Ordering.eq := by funext a b; simp [groupedCmp]
+      rw [this]; exact isOrd_const
+    | cons d ds =>
+      have hkey : IsOrd (fun a b : List (Str × Str) => cellCmp (cellAt i a) (cellAt i b)) :=
+        isOrd_comap cellCmp (cellAt i) cellCmp_isOrd
+      have hdir : IsOrd (fun a b : List (Str × Str) => if d then cellCmp (cellAt i a) (cellAt i b) else ordRev (cellCmp (cellAt i a) (cellAt i b))) := by
+        cases d
+        · simpa using isOrd_rev _ hkey
+        · simpa using hkey
+      have : groupedCmp (i :: is) (d :: ds) =
+          lex2 (fun a b => if d then cellCmp (cellAt i a) (cellAt i b) else ordRev (cellCmp (cellAt i a) (cellAt i b))) (groupedCmp is ds) := by
+        funext a b
+        cases d <;> rfl
+      rw [this]
+      exact isOrd_lex2 _ _ hdir (ih ds)
+
 end CellL
 end Fsel
